@@ -15,7 +15,7 @@ RULE = ("same seeded call histories as C19; at any point of the history, for exp
         "exactly the returned values of every user-declared factor (continuous ones included); no internal (HiddenName) key or "
         "column anywhere; CSV names <prefix>_<i>.csv, one header + T rows; under fs faults the CSV sub-check of that call is "
         "skipped; non-trivial = >=1 conversion checked on >=1 non-empty experiment list; distinct = operation-kind sequence")
-ASSUMPTIONS = ["a conversion may order columns as it likes; it is compared as a set of named/valued columns"]
+ASSUMPTIONS = ["dicts and CSV are compared as sets of named columns (their column order is not part of the statement); tuples, which carry no names, must follow the block's declared design order"]
 BUDGET = {"quick": 300, "thorough": 900}
 RUNS = {"quick": 3000, "thorough": 220000}
 
@@ -97,6 +97,12 @@ def run_case(case):
                     break
                 if sorted(map(repr, got)) != sorted(map(repr, want)):
                     viols.append(("C20/tuples/wrong-values", "op %d: columns %r != %r" % (oi, got[:3], want[:3])))
+                    break
+                # a tuple carries no names: position is the only way to tell which value belongs to which factor, and the
+                # documented position is the block's declared design order (whatever the key order of the experiment dict)
+                if list(map(repr, got)) != list(map(repr, want)):
+                    viols.append(("C20/tuples/column-order", "op %d: tuple positions do not follow the declared design order %r: got columns %r, declared order gives %r" % (
+                        oi, [c for c in ucols if c in e], got[:4], want[:4])))
                     break
         elif kind == "csv":
             _, oi, exps, prefix, files, faulted = item
